@@ -756,6 +756,14 @@ def tie_eval(ctx, inp, plan, groups, steps, marks, commit_err, got, out):
             if not m.get('undo_ok', True):
                 ctx.divergence('model: replaying the undo trail does not give the store the call started from', dict(inp, step=st), model=m); return
             if m['err']: ctx.count('model:failed-delete:undo-trail-length:%s' % (m['trail'] if m['trail'] < 6 else '6+'))
+            # C15_terminates_checked: a ranked (acyclic) cascade graph never ends in the model's RecursionError
+            if m.get('ranked') and m['err'] == 'RecursionError':
+                ctx.divergence('model: RecursionError although the cascade graph is ranked', dict(inp, step=st), model=m['err']); return
+        if sub and len(grp) == 1:
+            ctx.count('rank-check:%s:%s' % ('ranked' if sub[0].get('ranked') else 'cyclic', rec['err'] or 'ok'))
+            if sub[0].get('ranked') and rec['err'] == 'RecursionError':
+                ctx.divergence('the real delete raised RecursionError although the cascade graph of the session is ranked (no cascade cycle)',
+                               dict(inp, step=st), model='ranked', impl=rec['err']); return
         if rec['err'] is None and merr is None:
             mdead = sorted(i for i, o in enumerate(sub[-1]['objs']) if not o['alive']) if sub else None
             if sub and mdead != rec['dead']:
